@@ -257,12 +257,16 @@ def stepCommon (cfg : Cfg) (σ : Inst) (op obs : List String) : Option (Inst × 
       expectEq (kind ++ ".result") mres res ++ expectEq (kind ++ ".bcast") mbc bcs ++ expectDump kind s' ver dmp ++ pf ++ tags)
   | ["get", now, id], res :: rest =>
     let now := toInt! now
+    -- the v2 API renders only silences with at most one matcher set (500 otherwise)
+    let render (x : Mesh) : String :=
+      if x.sil.sets.length > 1 then "500" else
+      s!"200 {x.sil.id},{x.sil.start},{x.sil.stop},{x.sil.updated},{showState (currentState x.sil now)}"
     let m : String := match lookup σ.store.st id with
-      | some x => s!"200 {x.sil.id},{x.sil.start},{x.sil.stop},{x.sil.updated},{showState (currentState x.sil now)}"
+      | some x => render x
       | none => "404"
     let impl := " ".intercalate (res :: rest)
     let spec : String := match find σ.impl id with
-      | some x => s!"200 {x.sil.id},{x.sil.start},{x.sil.stop},{x.sil.updated},{showState (currentState x.sil now)}"
+      | some x => render x
       | none => "404"
     let pf := if spec = impl then [] else [Msg.propfail "queryable_until_retention" "get-mismatch" s!"id={id} get={impl} dump={spec}"]
     let tg : List Msg := match find σ.impl id with
